@@ -149,6 +149,9 @@ func c13Seeds() []c13Seed {
 		q := `<?xml version="1.0"?><C:addressbook-query xmlns:D="DAV:" xmlns:C="urn:ietf:params:xml:ns:carddav"><D:prop><D:getetag/>` + ad + `</D:prop><C:filter><C:prop-filter name="FN"/></C:filter></C:addressbook-query>`
 		out = append(out, c13Seed{Handler: "carddav", BodyKind: "xml", NeedsXML: true, Req: harness.Req{Method: "REPORT", Path: "/u/c/k1/", Header: with(xmlH(), "Depth", "1"), Body: q}})
 	}
+	// a query that asks for no results at all (valid; the filter must still be a filter)
+	out = append(out, c13Seed{Handler: "carddav", BodyKind: "xml", NeedsXML: true, Req: harness.Req{Method: "REPORT", Path: "/u/c/k1/", Header: with(xmlH(), "Depth", "1"),
+		Body: strings.Replace(c13CardQuery, "<C:nresults>5</C:nresults>", "<C:nresults>0</C:nresults>", 1)}})
 	// principal helper
 	for _, m := range []string{"OPTIONS", "GET", "DELETE", "FOO", "REPORT"} {
 		out = append(out, c13Seed{Handler: "principal", Req: harness.Req{Method: m, Path: "/u/"}})
@@ -517,6 +520,18 @@ func c13Mutants(seeds []c13Seed, pairs bool) []c13Mutant {
 			}
 		}
 	}
+	// M9: every request that carries a body once more with the body length not announced (chunked)
+	n := len(out)
+	for i := 0; i < n; i++ {
+		if out[i].Req.Body == "" || out[i].Req.Fault != nil {
+			continue
+		}
+		m := out[i]
+		m.Req = cloneReq(m.Req)
+		m.Req.Chunked = true
+		m.Op += "+chunked"
+		out = append(out, m)
+	}
 	return out
 }
 
@@ -536,6 +551,17 @@ func c13Judge(m c13Mutant) (clause, detail string) {
 	if resp.Status < 100 || resp.Status > 599 {
 		return "incomplete-response", fmt.Sprint(resp.Status)
 	}
+	if m.Req.Chunked {
+		// whether the length of the body is announced changes nothing: same status, same backend calls
+		twin := m.Req
+		twin.Chunked = false
+		h2, snap2 := c13Handler(m.Handler)
+		r2 := harness.Serve(h2, twin)
+		a, b := fmt.Sprint(snap()), fmt.Sprint(snap2())
+		if r2.Status != resp.Status || a != b {
+			return "unannounced-length-differs", fmt.Sprintf("chunked: status %d calls %s; with Content-Length: status %d calls %s", resp.Status, trunc(a, 200), r2.Status, trunc(b, 200))
+		}
+	}
 	if m.Tag == "" {
 		return "", ""
 	}
@@ -554,7 +580,7 @@ func init() {
 	register("C13", func(r *engine.Run) {
 		seeds := c13Seeds()
 		muts := c13Mutants(seeds, thorough(r))
-		r.Rule = fmt.Sprintf("%d valid seed requests (handler x method x hierarchy level x body variant) x deterministic single-mutation operators applied at every position: M1 truncate the body at every byte offset, M2 every 1-2 byte body over 6 bytes, M3 wrong root name/namespace, M4 delete/duplicate/rename/namespace-swap every element + insert mutually exclusive elements (is-not-defined beside siblings, allprop beside prop, allcomp beside comp), M5 every attribute set to 5 invalid values / deleted, nresults corrupted, M6 Depth/Overwrite/Destination/Content-Type value sets, M7 iCalendar/vCard truncation at every offset and line deletion/duplication, M8 unknown methods; a mutant is tagged malformed only when an independent judge says so (strict XML parser, the dependency's own iCalendar/vCard decoder, the header grammar); non-trivial = mutant carries a malformation tag (4xx + no-mutation oracle applies); distinct by full request", len(seeds))
+		r.Rule = fmt.Sprintf("%d valid seed requests (handler x method x hierarchy level x body variant) x deterministic single-mutation operators applied at every position: M1 truncate the body at every byte offset, M2 every 1-2 byte body over 6 bytes, M3 wrong root name/namespace, M4 delete/duplicate/rename/namespace-swap every element + insert mutually exclusive elements (is-not-defined beside siblings, allprop beside prop, allcomp beside comp), M5 every attribute set to 5 invalid values / deleted, nresults corrupted, M6 Depth/Overwrite/Destination/Content-Type value sets, M7 iCalendar/vCard truncation at every offset and line deletion/duplication, M8 unknown methods, M9 every body-carrying request above once more with the body length not announced (chunked), which must be answered exactly like its twin; a mutant is tagged malformed only when an independent judge says so (strict XML parser, the dependency's own iCalendar/vCard decoder, the header grammar); non-trivial = mutant carries a malformation tag (4xx + no-mutation oracle applies); distinct by full request", len(seeds))
 		r.Explanation = "every mutant is served by the real handler over a recording backend: no panic, a complete response, and for tagged mutants a 4xx status and no create/update/delete call"
 		r.Extra["seeds"] = len(seeds)
 		r.Extra["mutants"] = len(muts)
@@ -589,6 +615,7 @@ func init() {
 }
 
 func opClass(op string) string {
+	op = strings.TrimSuffix(op, "+chunked") // the transfer coding is not part of the root cause
 	if (strings.HasPrefix(op, "M5-attr-") && !strings.HasPrefix(op, "M5-attr-delete")) || strings.HasPrefix(op, "M5-nresults") {
 		return op
 	}
